@@ -169,8 +169,11 @@ def run_check(pid, tier, seed, replay=None):
             "coverage": cov, "assumptions": META.get("assumptions", []), "wall_s": round(wall, 2),
             "violations": len(seen_rep),
         }
-        os.makedirs(os.path.join(env.VERIF, "evidence"), exist_ok=True)
-        with open(os.path.join(env.VERIF, "evidence", pid + ".json"), "w") as fh:
+        # evidence/ only ever describes runs against /repo itself; runs against a scratch tree (VK_REPO_SRC, used by the
+        # self-tests and the seeded-change verification) write to a git-ignored directory instead
+        evdir = "evidence" if os.path.realpath(env.REPO_SRC) == os.path.realpath("/repo/src") else os.path.join(".work", "evidence_scratch")
+        os.makedirs(os.path.join(env.VERIF, evdir), exist_ok=True)
+        with open(os.path.join(env.VERIF, evdir, pid + ".json"), "w") as fh:
             json.dump(ev, fh, indent=1, sort_keys=True)
     for ln in lines:
         print(ln)
